@@ -219,6 +219,44 @@ def run(ctx):
                 V('recorded-block-refused', "recorded block %d no longer passes full validation after altered copies of recorded "
                   "blocks had been offered (and refused) in the same process: %r" % (h, e), {'k': 'rec'})
                 break
+    # a restarted node: recorded blocks 1..3 and a competing block at height 4 were written to the block store; the chain state
+    # is rebuilt by the start-up loader (read_chain_from_disk); the recorded blocks 4 and 5 then arrive and must still pass
+    if all(b is not None for b in blocks) and len(blocks) >= 6:
+        import contextlib
+        import io as _io
+        from skepticoin import blockstore
+        from skepticoin.scripts import utils as su
+        dbp = os.path.join(os.getcwd(), 'c18-restart-%d.db' % os.getpid())
+        if os.path.exists(dbp):
+            os.remove(dbp)
+        keep_inst = blockstore.DefaultBlockStore.instance
+        try:
+            with contextlib.redirect_stdout(_io.StringIO()):
+                st = blockstore.BlockStore(dbp)
+                rival4 = cand_block(4, blocks[3].hash(), blocks[4].timestamp - 1, target=blocks[3].target)
+                for bb_ in blocks[1:4] + [rival4]:
+                    st.add_block_to_buffer(bb_)
+                st.flush_blocks_to_disk()
+                st.close()
+                st = blockstore.BlockStore(dbp)
+                blockstore.DefaultBlockStore.instance = st
+                csr = su.read_chain_from_disk()
+            for h in (4, 5):
+                n += 1
+                try:
+                    csr = csr.add_block(Block.deserialize(recorded[h][2]), blocks[h].timestamp)
+                except Exception as e:
+                    V('recorded-block-refused', "after a restart (chain state rebuilt from the block store, which also held a competing "
+                      "block at height 4) recorded block %d fails full validation: %r" % (h, e), {'k': 'rec'})
+                    break
+            else:
+                if csr.head().hash().hex() != recorded[5][1]:
+                    V('recorded-chain-not-head', "after the restart the head is not recorded block 5", {'k': 'rec'})
+            st.close()
+        finally:
+            blockstore.DefaultBlockStore.instance = keep_inst
+            if os.path.exists(dbp):
+                os.remove(dbp)
     # the recorded blocks as they arrive inside longer byte streams (a frame that carries a few bytes after the block, several
     # blocks in one buffer): decoded with the stream decoder, they are still the recorded blocks and validate each other
     if all(b is not None for b in blocks):
